@@ -124,7 +124,7 @@ def main():
         ],
         "checks": checks,
         "not_applicable": na,
-        "notes": "A run that does not finish within VERIF_HANG_S (default 300) seconds is reported by a watchdog as a hang violation with a seed replay (the check exits 1 instead of hanging). All checks share one binary (sim/target/release/fcgisim) rebuilt from /repo's working tree by bin/check. Exit 0 = held on everything explored; 1 + 'VIOLATION property=<id> replay=<path>'; 2 = harness error. VERIF_SEED selects the batch; replay files are choice lists.",
+        "notes": "Every check runs two builds of the same simulator: the main pass with debug assertions and overflow checks on (writes the evidence) and a secondary pass over a fifth of the batch with both off, as in a shipped build (replay files tagged profile=relna; bin/check replay picks the matching build); the exit code is the worse of the two. A run that does not finish within VERIF_HANG_S (default 300) seconds is reported by a watchdog as a hang violation with a seed replay (the check exits 1 instead of hanging). All checks share one binary (sim/target/release/fcgisim) rebuilt from /repo's working tree by bin/check. Exit 0 = held on everything explored; 1 + 'VIOLATION property=<id> replay=<path>'; 2 = harness error. VERIF_SEED selects the batch; replay files are choice lists.",
     }
     with open(os.path.join(HERE, "MANIFEST.json"), "w") as f:
         json.dump(m, f, indent=1)
